@@ -82,6 +82,9 @@ class Ctx:
         self.exhaustive = None
 
     def cleanup(self):
+        if os.environ.get("VERIF_KEEP"):
+            print("scratch kept: %s" % self.scratch)
+            return
         shutil.rmtree(self.scratch, ignore_errors=True)
 
     def workers(self):
@@ -188,7 +191,13 @@ def run_tlc(ctx, module, cfg, extra_files=(), workers=None, timeout=600, simulat
     out = p.stdout
     keep = []
     nvec = -1
-    for line in out.splitlines():
+    lines = out.splitlines()
+    if tag == "@@VEC":
+        # TLC's workers print the vectors in an order that differs from run to run, and the harnesses spread cases over
+        # worlds, list modes and layouts by position: put the vectors in one fixed order (by content) first
+        head = '"' + tag + " "
+        lines = [ln for ln in lines if not ln.startswith(head)] + sorted(ln for ln in lines if ln.startswith(head))
+    for line in lines:
         if line.startswith('"' + tag + " "):
             nvec += 1
             if vec_filter is not None and not vec_filter(nvec):
